@@ -55,4 +55,16 @@ CHECKS["C04"] = {
   "text": "Labware.add/remove: for every real well (r,c): vol'[r,c] == vol[r,c] +/- sum over the pairs i of volume_i*[well_i addresses (r,c)] - one statement giving the sum, the frame (untouched wells unchanged), repeats (one term per occurrence) and trough aliasing (every virtual row id maps to real row 0). Pairing is element-wise in column-major order, a single volume is broadcast. Proved for symbolic list lengths and 2-D shapes.",
   "note": "float = real; numpy flatten('F') / repeat are library axioms; index map of the labware from wf(L) (C20). aspirate/dispense hand their normalised arrays to remove/add unchanged (worklist contracts).",
 }
+CHECKS["C11"] = {
+  "category": "other",
+  "technique": "contract-based deductive verification of the labware half (log, condense_log, volumes, history, add, remove: postconditions on the label/history sequences incl. heap identity of snapshots) + bounded contract monitor for the operation-level clauses",
+  "text": "Proved on the real bodies for a symbolic well-formed labware with a history of any length: add/remove append exactly one (label, copy of the volumes) entry and leave the history untouched on every raise exit; log appends a copy; condense_log(n) keeps the first len-n entries unchanged (same arrays, same labels), appends the last state and never aliases the live volume array; `volumes` returns a fresh equal array. The transfer/distribute clauses (exactly one entry per participating labware, LVH step count) are checked by the bounded monitor (seeded operation histories on real objects) until the transfer contract carries them.",
+  "note": "Mixed level: deductive for the six labware functions, bounded (labelled, never counted as proved) for transfer/distribute and `report`. float = real; numpy copy() yields a fresh array with equal content (library axiom).",
+}
+CHECKS["C20"] = {
+  "category": "other",
+  "technique": "contract-based deductive verification of Labware.__init__ (representation invariant wf(L) as postcondition, ValueError iff the specification is unrepresentable, per type-case) + bounded monitor for Trough.__init__ and the composition/naming clauses",
+  "text": "Proved on the real constructor body for symbolic rows, columns, virtual_rows, limits and initial volumes (absent, scalar, flat list of any length, 2-D of the labware's shape; nan / inf / None / float type-cases): a normal return establishes wf(L) - row/column ids, the well-id array, the index map (total on the grid, nothing else, troughs map every virtual row to real row 0), EVO positions, volumes laid out as given (scalar broadcast / row-major) within [0, max_volume], 0 <= min_volume < max_volume, history == [('initial', copy of the volumes)] - and ValueError is raised for exactly the other specifications. This is the wf(L) that the other contracts assume.",
+  "note": "Mixed level: Trough.__init__, get_trough_component_names and get_initial_composition (one-hot composition, default names, names for empty/unknown wells) are covered by the bounded monitor only; get_initial_composition enters the constructor proof through an assumed summary. bool sizes are outside the universe; float = real.",
+}
 NOT_APPLICABLE = {}
